@@ -107,13 +107,43 @@ func writes(c c15case) [][]byte {
 	return [][]byte{b}
 }
 
+// long-lived Buffer instances (one per side x limits x retries), serving their cases in sequence; see c06.go
+type c15instance struct {
+	b   *buffer.Buffer
+	cur http.Handler
+}
+
+var c15instances = map[string]*c15instance{}
+
+var c15pos struct {
+	tier  string
+	shard lib.Shard
+	index int
+}
+
+func c15instanceFor(c c15case, opts []buffer.Option) (*c15instance, error) {
+	key := fmt.Sprintf("%s/%d/%d/%d", c.side, c.lim.mem, c.lim.max, c.retries)
+	if in, ok := c15instances[key]; ok {
+		return in, nil
+	}
+	in := &c15instance{}
+	b, err := buffer.New(http.HandlerFunc(func(w http.ResponseWriter, r *http.Request) { in.cur.ServeHTTP(w, r) }), opts...)
+	if err != nil {
+		return nil, err
+	}
+	in.b = b
+	c15instances[key] = in
+	return in, nil
+}
+
 func runC15(c c15case, rep *lib.Report) {
 	ensureTmp()
 	cleanTmp()
 	invoked := 0
 	var opts []buffer.Option
 	what := func() map[string]any {
-		return map[string]any{"engine": "enum", "part": "c15", "case": c.String()}
+		return map[string]any{"engine": "enum", "part": "c15", "case": c.String(),
+			"tier": c15pos.tier, "shard": fmt.Sprintf("%d/%d", c15pos.shard.I, c15pos.shard.N), "index": c15pos.index}
 	}
 	if c.retries > 0 {
 		opts = append(opts, buffer.Retry(fmt.Sprintf("Attempts() <= %d", c.retries)))
@@ -163,11 +193,13 @@ func runC15(c c15case, rep *lib.Report) {
 		})
 		req, _ = lib.ParseRequest(lib.RawRequest(c.method, "/", nil, nil, 0))
 	}
-	b, err := buffer.New(h, opts...)
+	in, err := c15instanceFor(c, opts)
 	if err != nil {
 		rep.DistrustF("buffer.New: %v", err)
 		return
 	}
+	in.cur = h
+	b := in.b
 	var rec *lib.Recorder
 	if c.side == "response" && c.clientBreaksAt >= 0 {
 		// delivery to the client fails part-way: only the temp-file obligation applies
@@ -327,7 +359,7 @@ func c15cases(tier string) []c15case {
 func RunC15(tier string, sh lib.Shard, rep *lib.Report) {
 	cases := c15cases(tier)
 	rep.Bounds["cases"] = len(cases)
-	rep.Rule = "full product (memory threshold, maximum) in {(8,16),(16,16),(32,16),(8,unlimited)} x size {0,mem-1,mem,mem+1,max-1,max,max+1,2max} x request framing {declared, chunked 1/5, unknown length without chunking (HTTP/2 stream)} / response write pattern {one, straddling mem, straddling max, bytewise} x method x response status {200,204,304,500} x header {-,Content-Length:0,Grpc-Status:1} x retries {0,1,2}; private $TMPDIR per worker inspected after every exchange; non-trivial = exchanges that spilled to disk or exceeded a limit"
+	rep.Rule = "full product (memory threshold, maximum) in {(8,16),(16,16),(32,16),(8,unlimited)} x size {0,mem-1,mem,mem+1,max-1,max,max+1,2max} x request framing {declared, chunked 1/5, unknown length without chunking (HTTP/2 stream)} / response write pattern {one, straddling mem, straddling max, bytewise} x method x response status {200,204,304,500} x header {-,Content-Length:0,Grpc-Status:1} x retries {0,1,2}; long-lived Buffer instances (one per side x limits x retries) serving their cases in sequence; private $TMPDIR per worker inspected after every exchange; non-trivial = exchanges that spilled to disk or exceeded a limit"
 	rep.Require("request_spills", "response_spills", "oversized_requests", "oversized_responses", "aborted_exchanges", "broken_client_connections")
 	for i, c := range cases {
 		if !sh.Mine(i) {
@@ -337,6 +369,7 @@ func RunC15(tier string, sh lib.Shard, rep *lib.Report) {
 			rep.Exhaustive = false
 			break
 		}
+		c15pos.tier, c15pos.shard, c15pos.index = tier, sh, i
 		runC15(c, rep)
 		if i%4001 == 0 {
 			rep.Sample(4, c.String())
@@ -350,6 +383,40 @@ func RunC15(tier string, sh lib.Shard, rep *lib.Report) {
 
 func ReplayC15(rp map[string]any) (bool, string) {
 	want, _ := rp["case"].(string)
+	if idx, ok := rp["index"].(float64); ok {
+		// re-run, on fresh long-lived instances, exactly the cases this worker had run up to the failing one
+		tier, _ := rp["tier"].(string)
+		shs, _ := rp["shard"].(string)
+		sh := lib.ParseShard(shs)
+		c15instances = map[string]*c15instance{}
+		key, _ := rp["key"].(string)
+		var last *lib.Report
+		for i, c := range c15cases(tier) {
+			if i > int(idx) {
+				break
+			}
+			if !sh.Mine(i) {
+				continue
+			}
+			last = lib.NewReport("C15", "replay")
+			c15pos.tier, c15pos.shard, c15pos.index = tier, sh, i
+			runC15(c, last)
+		}
+		if tmpDir != "" {
+			os.RemoveAll(tmpDir)
+		}
+		if last != nil {
+			for _, v := range last.Violations {
+				if v.Key == key {
+					return true, v.Key + " :: " + v.Detail
+				}
+			}
+			if len(last.Violations) > 0 {
+				return true, last.Violations[0].Key + " :: " + last.Violations[0].Detail
+			}
+		}
+		return false, "limits enforced and no temporary file left"
+	}
 	for _, tier := range []string{"quick", "thorough"} {
 		for _, c := range c15cases(tier) {
 			if c.String() == want {
